@@ -5,6 +5,9 @@ from __future__ import annotations
 
 import hashlib
 import json
+import re
+
+_TMP = re.compile(r"%tmp\d+")
 
 
 def canon(hugr) -> dict:
@@ -38,6 +41,19 @@ def canon(hugr) -> dict:
         [[new[e[0][0]], e[0][1], new[e[1][0]], e[1][1]] for e in edges],
         key=lambda e: (e[0], -1 if e[1] is None else e[1], e[2], -1 if e[3] is None else e[3]),
     )
+    # generated symbol names: `%tmp<n>` (e.g. `static_pyarray.%tmp12`) renumbered in order of first occurrence
+    ren: dict[str, str] = {}
+
+    def rn(x):
+        if isinstance(x, str):
+            return _TMP.sub(lambda m: ren.setdefault(m.group(0), f"%tmp#{len(ren)}"), x) if "%tmp" in x else x
+        if isinstance(x, list):
+            return [rn(y) for y in x]
+        if isinstance(x, dict):
+            return {k: rn(v) for k, v in x.items()}
+        return x
+
+    out_nodes = rn(out_nodes)
     ep = j.get("entrypoint")
     return {"nodes": out_nodes, "edges": out_edges,
             "entrypoint": new.get(ep, ep) if isinstance(ep, int) else ep}
